@@ -136,7 +136,7 @@ def run(ctx):
     for c, what, detail in viol[:10]:
         sig = F17_SIG if what.endswith("-thick") else "c02:" + what
         ctx.violation("real thermal solve: " + detail, {"case": c.to_json(), "check": what, "substep": c.substep}, signature=sig)
-    if not viol and (mism or not thm_ok):
+    if not ctx.violations and (mism or not thm_ok):
         ctx.violation("C02 theorem or correspondence no longer checks",
                       {"mismatches": [(c.to_json(), d) for c, d in mism[:3]], "lean": ctx.extra.get("lean_errors"),
                        "theorems": ctx.extra.get("broken_theorems")}, no_input=True)
